@@ -308,6 +308,28 @@ theorem sinv_step (s s' : State) (sp : SpecSt) (a : Act) (h : SInv s sp)
       · simp only [Option.some.injEq] at hs
         subst hs
         exact ⟨hinv', hf', ⟨mL, hL, hR, hA⟩, cks_mono h.cks (fun c hc => (List.mem_filter.mp hc).1)⟩
+  | saveList =>
+    simp only [step] at hs
+    split at hs
+    · cases hs
+    · simp only [Option.some.injEq] at hs
+      subst hs
+      exact ⟨hinv', hf', ⟨mL, hL, hR, hA⟩, h.cks⟩
+  | destroy =>
+    simp only [step] at hs
+    split at hs
+    · cases hs
+    · obtain ⟨a, _, _, d, _⟩ := destroyOne_same hs
+      exact ⟨hinv', hf', ⟨mL, by rw [a]; exact hL, by rw [a]; exact hR, hA⟩, by rw [d]; exact h.cks⟩
+  | orphan id run =>
+    simp only [step] at hs
+    split at hs
+    · cases hs
+    · split at hs
+      · cases hs
+      · simp only [Option.some.injEq] at hs
+        subst hs
+        exact ⟨hinv', hf', ⟨mL, hL, hR, hA⟩, h.cks⟩
   | crash =>
     simp only [step] at hs
     split at hs
